@@ -329,6 +329,8 @@ impl DecoderScratch {
         self.fse.ll_rle = None;
         self.fse.ml_rle = None;
         self.fse.of_rle = None;
+
+        self.huf.table.reset();
     }
 
     pub fn init_from_dict(&mut self, dict: &Dictionary)
